@@ -49,6 +49,7 @@ type c37Model struct {
 func c37Run(arg string) explore.HistFn {
 	k, ver := 1, byte(4)
 	maxPackets := 3
+	tickMs := 250 // large keepalives use a proportional step (T=): 1.5 x K is six steps
 	for _, kv := range strings.Split(arg, ",") {
 		switch {
 		case strings.HasPrefix(kv, "K="):
@@ -58,9 +59,11 @@ func c37Run(arg string) explore.HistFn {
 			ver = byte(n)
 		case strings.HasPrefix(kv, "P="):
 			maxPackets, _ = strconv.Atoi(kv[2:])
+		case strings.HasPrefix(kv, "T="):
+			tickMs, _ = strconv.Atoi(kv[2:])
 		}
 	}
-	limitMs := int64(k)*1500 + 500 // ticks are offered while idle < limit
+	limitMs := int64(k)*1500 + 2*int64(tickMs) // ticks are offered while idle < limit
 	maxTicksK0 := 28               // K=0: 7 s of silence
 	return func(hist []string) explore.HistResult {
 		h := newH(world.Config{})
@@ -160,7 +163,7 @@ func c37Run(arg string) explore.HistFn {
 		idle := now() - m.lastMs
 		if !a.Closed() {
 			if (k > 0 && idle < limitMs) || (k == 0 && m.ticks < maxTicksK0) {
-				next = append(next, "tick:250")
+				next = append(next, fmt.Sprintf("tick:%d", tickMs))
 			}
 			if m.halfOpen {
 				next = append(next, "rest")
@@ -208,6 +211,13 @@ func init() {
 			vers = []int{3, 4, 5}
 			p = 4
 			per = 40 * time.Second
+		}
+		// large keepalives (the whole uint16 range is legal): around 65535/3 and 65535/1.5, and the maximum
+		for _, k := range []int{21845, 21846, 43691, 65535} {
+			st := explore.RunBFS(c, "c37", fmt.Sprintf("K=%d,v=5,P=2,T=%d", k, k*250), 0, per)
+			for ck, n := range st.Counters {
+				c.Rep.Count(ck, n)
+			}
 		}
 		for _, k := range ks {
 			for _, v := range vers {
